@@ -39,6 +39,9 @@ enum Plan {
     Waiting(How),
     /// complete POST whose body the extractor consumed; disconnect while the handler waits
     WaitingBody(How),
+    /// complete GET to the handler that drops its RequestContext before it waits; disconnect
+    /// while it waits.  The scenario's server is then closed with the gates still shut.
+    WaitingDropCtx(How),
     /// handler released, large response being written, client never reads, disconnect
     Writing(How),
     /// stays connected; its handler runs across the other clients' disconnects
@@ -63,6 +66,7 @@ impl Plan {
             Plan::Immediately(h) => format!("imm-{}", h.name()),
             Plan::Waiting(h) => format!("wait-{}", h.name()),
             Plan::WaitingBody(h) => format!("waitbody-{}", h.name()),
+            Plan::WaitingDropCtx(h) => format!("waitdropctx-{}", h.name()),
             Plan::Writing(h) => format!("write-{}", h.name()),
             Plan::Stay => "stay".into(),
             Plan::StayReuse => "stayreuse".into(),
@@ -178,6 +182,11 @@ fn run_conn(sh: &Shared, c: u32, plan: Plan) -> Option<std::net::TcpStream> {
         Plan::Waiting(how) => {
             sh.req(r1, c, "wait");
             let _ = send_logged(ctx, &mut s, &get(&format!("/w/{}", r1)), Ev::ReqSent(c, r1));
+            disconnect_while_waiting(sh, s, c, r1, how)
+        }
+        Plan::WaitingDropCtx(how) => {
+            sh.req(r1, c, "wait");
+            let _ = send_logged(ctx, &mut s, &get(&format!("/wd/{}", r1)), Ev::ReqSent(c, r1));
             disconnect_while_waiting(sh, s, c, r1, how)
         }
         Plan::WaitingBody(how) => {
@@ -315,13 +324,42 @@ fn run_scenario(rt: &Arc<tokio::runtime::Runtime>, id: &str, mode: HandlerTaskMo
     // handler started); it must disappear by cancellation, so the gates stay
     // shut until close() returned or the "eventually" deadline has passed.
     drop(kept);
+    // Detached, with a handler that gave up its RequestContext: close() is requested while
+    // that handler is still at its gate.  It must not return before the handler has finished
+    // ("early": it did, within 1.5 s, with a started handler neither done nor panicked).
+    let gated_detached = mode == HandlerTaskMode::Detached && plans.iter().any(|p| matches!(p, Plan::WaitingDropCtx(_)));
+    let mut early = false;
     let closed = if mode == HandlerTaskMode::CancelOnDisconnect && sh.expired.load(Ordering::SeqCst) == 0 {
         close_then_release(rt, server, &ctx, DEADLINE, Duration::from_secs(60))
+    } else if gated_detached {
+        let ctx2 = ctx.clone();
+        rt.block_on(async {
+            let fut = server.close();
+            tokio::pin!(fut);
+            match tokio::time::timeout(Duration::from_millis(1500), &mut fut).await {
+                Ok(r) => {
+                    let log = ctx2.snapshot();
+                    early = log.iter().any(|e| match e {
+                        Ev::Start(r) => !log.iter().any(|x| matches!(x, Ev::Done(d) | Ev::Panic(d) | Ev::Drop(d) if d == r)),
+                        _ => false,
+                    });
+                    Some(r)
+                }
+                Err(_) => {
+                    ctx2.release_all();
+                    tokio::time::timeout(Duration::from_secs(60), &mut fut).await.ok()
+                }
+            }
+        })
     } else {
         ctx.release_all();
         close_with_deadline(rt, server, Duration::from_secs(60))
     };
     ctx.release_all();
+    if early {
+        // give the abandoned handlers a moment, so that the log says what became of them
+        std::thread::sleep(Duration::from_millis(200));
+    }
     let log = ctx.snapshot();
     let mut reqs = sh.reqs.lock().unwrap().clone();
     reqs.sort();
@@ -339,7 +377,7 @@ fn run_scenario(rt: &Arc<tokio::runtime::Runtime>, id: &str, mode: HandlerTaskMo
     };
     let plans_s = plans.iter().map(|p| p.name()).collect::<Vec<_>>().join(";");
     format!(
-        "lc {} {} n={} plans={} reqs={} {} => health={} closed={} late={} resp={}",
+        "lc {} {} n={} plans={} reqs={} {} => health={} closed={} late={} resp={} early={}",
         id,
         mode_name(mode),
         plans.len(),
@@ -349,7 +387,8 @@ fn run_scenario(rt: &Arc<tokio::runtime::Runtime>, id: &str, mode: HandlerTaskMo
         healthy as u8,
         matches!(closed, Some(Ok(()))) as u8,
         sh.late.load(Ordering::SeqCst),
-        resp_s
+        resp_s,
+        early as u8
     )
 }
 
@@ -867,6 +906,7 @@ fn main() {
                 Plan::PartialHeaders(h),
                 Plan::Immediately(h),
                 Plan::Waiting(h),
+                Plan::WaitingDropCtx(h),
                 Plan::WaitingBody(h),
                 Plan::Writing(h),
                 Plan::ReuseThenWaiting(h),
